@@ -39,7 +39,10 @@ type C11Case struct {
 	Anywhere   bool      `json:"anywhere,omitempty"` // overflow-wrap:anywhere (or break-word: the same for line breaking)
 	BreakWord  bool      `json:"break_word,omitempty"`
 	BareSpans  bool      `json:"bare_spans,omitempty"` // simple paragraph whose words are wrapped in spans without decoration
-	Engine     string    `json:"engine"`
+	// SplitWords: inside such a span, a word is cut in two by "</span><span>": a joint between two inline boxes
+	// where the text offers no break opportunity
+	SplitWords bool   `json:"split_words,omitempty"`
+	Engine     string `json:"engine"`
 }
 
 func c11Gen(t *rapid.T, tier Tier) interface{} {
@@ -59,6 +62,9 @@ func c11Gen(t *rapid.T, tier Tier) interface{} {
 	if simple {
 		// spans without margin, border or padding change nothing to the lines
 		c.BareSpans = rapid.IntRange(0, 2).Draw(t, "bare") == 0
+		// (not with overflow-wrap:anywhere: a word cut by a joint is then not broken at or after the joint -
+		// observed on the unchanged tree, see DESIGN.md 0.3)
+		c.SplitWords = c.BareSpans && !c.Anywhere && rapid.Bool().Draw(t, "splitwords")
 	}
 	total := 0
 	for i := 0; i < n; i++ {
@@ -194,7 +200,11 @@ func c11Build(c *C11Case) (string, []c11Unit) {
 			b.WriteString(sep)
 			w := strings.Repeat(string(rune('a'+wi%26)), it.Len)
 			wi++
-			b.WriteString(w)
+			if c.SplitWords && len(rights) > 0 && it.Len >= 2 {
+				b.WriteString(w[:it.Len/2] + "</span><span>" + w[it.Len/2:])
+			} else {
+				b.WriteString(w)
+			}
 			units = append(units, c11Unit{text: w, left: pendingLeft, w: fs * float64(it.Len)})
 			pendingLeft = 0
 			after(it.Sep)
@@ -341,6 +351,7 @@ func c11Check(ci interface{}) Verdict {
 			return Viol("structure", "the paragraph holds a %s next to its line boxes\n%s", ch.Type(), html)
 		}
 		gl := c11GotLine{y: float64(lb.PositionY), h: float64(lb.Height.V())}
+		glued := false // the previous text box of the line ended inside a word
 		var walk func(b bo.Box)
 		walk = func(b bo.Box) {
 			switch v := b.(type) {
@@ -351,12 +362,22 @@ func c11Check(ci interface{}) Verdict {
 				}
 				// words of the run with their offsets (Ahem: one em per character)
 				off := 0
-				for _, f := range strings.Fields(txt) {
+				for k, f := range strings.Fields(txt) {
 					i := strings.Index(txt[off:], f) + off
-					gl.units = append(gl.units, c11GotUnit{text: f, x: float64(v.PositionX) - x0 + fs*float64(len([]rune(txt[:i]))), w: fs * float64(len(f))})
+					if n := len(gl.units); k == 0 && i == 0 && glued && n > 0 && !gl.units[n-1].ib {
+						// the word goes on from the previous text box (a joint between two inline boxes inside a word)
+						gl.units[n-1].text += f
+						gl.units[n-1].w += fs * float64(len(f))
+					} else {
+						gl.units = append(gl.units, c11GotUnit{text: f, x: float64(v.PositionX) - x0 + fs*float64(len([]rune(txt[:i]))), w: fs * float64(len(f))})
+					}
 					off = i + len(f)
 				}
+				if txt != "" {
+					glued = !strings.ContainsAny(txt[len(txt)-1:], " \n\t")
+				}
 			case *bo.InlineBlockBox:
+				glued = false
 				t := ""
 				wr.WalkBoxes(v, func(bb bo.Box) bool {
 					if tb, ok := bb.(*bo.TextBox); ok {
